@@ -138,6 +138,18 @@ def case_strategy(draw, tier):
         'identical', 'identical', 'cell_big', 'cell_big', 'cell_small',
         'null_to_value', 'value_to_null', 'rename', 'retype', 'retype',
         'retype_changed', 'move', 'add_row', 'drop_row', 'add_col', 'drop_col', 'shuffle']))
+    force_dt = False
+    if edit == 'cell_big' and n and draw(st.integers(0, 3)) == 0:
+        # one instant moved by a fraction of a second, in a datetime column
+        # (added when the frame has none)
+        force_dt = True
+        if not any(c['kind'] == 'dt64ns' for c in act['cols']):
+            newc = {'name': 'c%d' % ncols, 'kind': 'dt64ns',
+                    'cells': [draw(value_for('dt64ns')) for _ in range(n)]}
+            ref['cols'].append(copy.deepcopy(newc))
+            act['cols'].append(newc)
+        if draw(st.booleans()):
+            p = draw(st.sampled_from([0, 0, 1, 3]))
     if edit == 'cell_small' and draw(st.booleans()):
         p = draw(st.sampled_from([0, 0, 1]))    # where rounding bites first
     peff = 6 if p is None else p
@@ -148,6 +160,10 @@ def case_strategy(draw, tier):
             edit = info['edit'] = 'identical'
         else:
             c = draw(st.sampled_from(data_cols))
+            dts = [x for x in data_cols if x['kind'] == 'dt64ns']
+            if edit == 'cell_big' and dts and (force_dt
+                                               or draw(st.booleans())):
+                c = draw(st.sampled_from(dts))
             if edit == 'cell_small':
                 fl = [x for x in data_cols if x['kind'] in ('float64',
                                                             'Float64')]
@@ -190,6 +206,13 @@ def case_strategy(draw, tier):
                             abs(old) >= 2**53):
                         c['cells'][i] = old + (draw(st.sampled_from(
                             [1, 1, 2, 3])) if old < 2**63 - 4 else -1)
+                    elif (k == 'dt64ns' and old is not None and '.' not in old
+                          and (force_dt or draw(st.booleans()))):
+                        # an instant a fraction of a second later (rounding
+                        # to the precision is for floats, not for instants)
+                        c['cells'][i] = old + draw(st.sampled_from(
+                            ['.000000300', '.200', '.000001', '.999',
+                             '.000000001', '.4']))
                     else:
                         new = draw(value_for(k).filter(lambda v: v != old))
                         c['cells'][i] = new
